@@ -30,6 +30,7 @@ import Verif.Lemmas.LevelStore
 import Verif.Lemmas.MptRound
 import Verif.Lemmas.MergeRound
 import Verif.Lemmas.TrieRun
+import Verif.Lemmas.Interp
 import Verif.Lemmas.OrderChanges
 namespace Verif.Props.C03
 open Verif.Mpt Verif.MptStore Verif.MptStore.Collector
@@ -251,6 +252,22 @@ theorem run_resolves (H : Bytes → Bytes) (U : Ref → Prop) (Vok : Nat → Pro
     · exact hUt' r hr
     · exact hE r hr
   rw [hU a b (hin a ha) (hin b hb) hk]
+
+/-- **Publication into the layered store — every history of the interpreter** (`Forest.step`): after ANY op list from a
+    freshly opened block trie (empty level over stores `below` where its start tree resolves) the block trie's tree —
+    whatever merges, nested merges, discards and version changes happened — resolves in its layered store.  This is
+    `MergeResolves` for every reachable parent state of the block trie.  Side conditions as in `C04_complete_interp`. -/
+theorem resolves_interp (H : Bytes → Bytes) (ord : List (Change Ref) → List (Change Ref)) (hord : ∀ l, (ord l).Perm l)
+    (U : Ref → Prop) (Vok : Nat → Prop) (hU : KeyInjOn H U) (hne : ∀ x, H x ≠ []) (below : Bytes → Option Bytes)
+    (t0 : Node) (v : Nat) (hw : WF t0) (hu : ∀ r ∈ refs t0 [], U r) (h0 : Resolves H below t0 []) (ops : List TOp)
+    (hin : RunIn H ord U Vok { tries := [(0, 0, Trie.open (root H t0) t0 v)] } ops) (pid : Nat) (b : Trie)
+    (hb : (Forest.run H ord { tries := [(0, 0, Trie.open (root H t0) t0 v)] } ops).find 0 = some (pid, b)) :
+    Resolves H (levelGet b below) b.tree [] := by
+  obtain ⟨es, v0, _, h2, hrun, _⟩ := block_is_trieRun H ord hord U Vok hU hne t0 v hw hu ops hin pid b hb
+  have := run_resolves H U Vok below t0 b.tree (Trie.open (root H t0) t0 v0) es ⟨rfl, rfl⟩ rfl h0 hw hu hrun hU
+  have hl : levelGet b below = levelGet ((Trie.open (root H t0) t0 v0).applyEvents H es) below := by
+    funext k; simp only [levelGet, h2]
+  rw [hl]; exact this
 
 /-- non-vacuity of `run_resolves`: a trie that merges one child which inserted a key reads the leaf from its own level -/
 example : ∃ es, TrieRun id (fun r => r = ⟨[], .leaf 1 [3] [65]⟩) (fun v => v = 1) .empty es (.leaf 1 [3] [65]) ∧
